@@ -3,6 +3,8 @@
 //       different patterns (operator new is replaced in this binary): observations must be equal.
 //   (b) h1 ; Reset ; h2 ; observe  ==  fresh ; Reset ; h2 ; observe, for every h1, h2 of the alphabet.
 #pragma once
+#include <map>
+#include "../../spec/mmio_fields.h"
 #include "sys.h"
 
 namespace verif_heap {
@@ -104,6 +106,36 @@ inline std::vector<Op> Alphabet() {
         t.MMIOWrite(0x1C0, 0x0100), t.MMIOWrite(0x1C4, 0x0200), t.MMIOWrite(0x1C8, 4), t.MMIOWrite(0x1CA, 2), t.MMIOWrite(0x1CE, 1), t.MMIOWrite(0x1D0, 2);
         t.MMIOWrite(0x1D2, 3), t.MMIOWrite(0x1D4, 1), t.MMIOWrite(0x184, 0x0008);
     });
+    add("dma:program ch7+ch0", [](Inst& i) {
+        auto& t = *i.m->teakra;
+        for (u16 ch : {(u16)7, (u16)0}) {
+            t.MMIOWrite(0x1BE, ch);
+            t.MMIOWrite(0x1C0, (u16)(0x0140 + ch)), t.MMIOWrite(0x1C4, (u16)(0x0240 + ch)), t.MMIOWrite(0x1C8, 3), t.MMIOWrite(0x1CA, 2), t.MMIOWrite(0x1CC, 2);
+            t.MMIOWrite(0x1CE, 1), t.MMIOWrite(0x1D0, 1), t.MMIOWrite(0x1D6, 5), t.MMIOWrite(0x1D8, 7);
+        }
+        t.MMIOWrite(0x1BE, 7);
+    });
+    // every documented read/write register field of every peripheral written with a pattern (all 8 DMA channel windows, all 16 vectors,
+    // all 3 AHBM channels, both audio ports): whatever a register holds, Reset has to bring it back
+    for (u16 pattern : {(u16)0x5555, (u16)0xAAAA})
+        add(pattern == 0x5555 ? "mmio:every RW field=0x5555" : "mmio:every RW field=0xAAAA", [pattern](Inst& i) {
+            static const std::vector<spec::Field> fields = spec::MmioFields();
+            std::map<u16, u16> mask;
+            for (auto& f : fields)
+                if (f.cls == spec::RW)
+                    mask[f.off] |= (u16)(((1u << f.width) - 1) << f.lo);
+            auto& t = *i.m->teakra;
+            for (auto& [off, mk] : mask) {
+                if (off == 0x11E || off == 0x20 || off == 0x30 || off == 0x1BE || (off >= 0x1C0 && off <= 0x1DA))
+                    continue; // the MMIO window stays where it is; timer modes are set by the timer operations; DMA windows below
+                t.MMIOWrite(off, (u16)(pattern & mk));
+            }
+            for (u16 ch = 0; ch < 8; ++ch) {
+                t.MMIOWrite(0x1BE, ch);
+                for (u16 off = 0x1C0; off <= 0x1DA; off += 2)
+                    t.MMIOWrite(off, (u16)((pattern + ch * 0x0101) & mask[off] & (off >= 0x1C8 && off <= 0x1CC ? 0x0003 : 0xFFFF))); // transfer sizes stay small: a later start has to finish
+            }
+        });
     add("dma:start", [](Inst& i) { i.m->teakra->MMIOWrite(0x1DE, 0x40C0); });
     add("btdmp0:queue3+enable", [](Inst& i) { auto& t = *i.m->teakra; t.MMIOWrite(0x2C6, 0x11), t.MMIOWrite(0x2C6, 0x22), t.MMIOWrite(0x2C6, 0x33); t.MMIOWrite(0x2BE, 0x8000); t.MMIOWrite(0x2A2, 0x1004); });
     add("btdmp1:queue1+enable", [](Inst& i) { auto& t = *i.m->teakra; t.MMIOWrite(0x346, 0x44); t.MMIOWrite(0x33E, 0x8000); });
@@ -177,14 +209,18 @@ inline Obs Observe(Inst& in) {
     o[O_BTDMP] = bb.Hash();
     Bytes bd;
     auto& dma = m.impl->dma;
-    bd.Put(dma.enable_channel), bd.Put(dma.active_channel);
-    for (auto& ch : dma.channels) {
-        bd.Put(ch.addr_src_low), bd.Put(ch.addr_src_high), bd.Put(ch.addr_dst_low), bd.Put(ch.addr_dst_high), bd.Put(ch.size0), bd.Put(ch.size1);
-        bd.Put(ch.size2), bd.Put(ch.src_step0), bd.Put(ch.dst_step0), bd.Put(ch.src_step1), bd.Put(ch.dst_step1), bd.Put(ch.src_step2);
-        bd.Put(ch.dst_step2), bd.Put(ch.src_space), bd.Put(ch.dst_space), bd.Put(ch.dword_mode), bd.Put(ch.y), bd.Put(ch.z);
-        // transfer-internal fields (current_*, counters) are rewritten by the next start and are
+    // every channel's register copies through the DMA's own accessors (the channel window is moved over all eight channels and put back)
+    const u16 active = dma.GetActiveChannel();
+    bd.Put(dma.GetChannelEnabled()), bd.Put(active);
+    for (u16 ch = 0; ch < 8; ++ch) {
+        dma.ActivateChannel(ch);
+        bd.Put(dma.GetAddrSrcLow()), bd.Put(dma.GetAddrSrcHigh()), bd.Put(dma.GetAddrDstLow()), bd.Put(dma.GetAddrDstHigh()), bd.Put(dma.GetSize0()), bd.Put(dma.GetSize1());
+        bd.Put(dma.GetSize2()), bd.Put(dma.GetSrcStep0()), bd.Put(dma.GetDstStep0()), bd.Put(dma.GetSrcStep1()), bd.Put(dma.GetDstStep1()), bd.Put(dma.GetSrcStep2());
+        bd.Put(dma.GetDstStep2()), bd.Put(dma.GetSrcSpace()), bd.Put(dma.GetDstSpace()), bd.Put(dma.GetDwordMode()), bd.Put(dma.GetY()), bd.Put(dma.GetZ());
+        // transfer-internal fields (current addresses, counters) are rewritten by the next start and are
         // not observable through any register: not compared
     }
+    dma.ActivateChannel(active);
     o[O_DMA] = bd.Hash();
     Bytes bh;
     auto& ahbm = m.impl->ahbm;
@@ -213,7 +249,13 @@ inline Obs Observe(Inst& in) {
     bp.Put(t.GetSemaphore()), bp.Put(t.DMAChan0GetSrcHigh()), bp.Put(t.DMAChan0GetDstHigh());
     for (u16 i = 0; i < 3; ++i)
         bp.Put(t.AHBMGetUnitSize(i)), bp.Put(t.AHBMGetDirection(i)), bp.Put(t.AHBMGetDmaChannel(i));
-    bp.Put(t.ProgramRead(0x2000)), bp.Put(t.DataRead(0x1234, true)), bp.Put(t.DataReadA32(0x1FFFE));
+    bp.Put(t.ProgramRead(0x2000));
+    try { // with some memory-page configurations the translated host read ends in a deliberate assertion: that outcome is the observation then
+        bp.Put(t.DataRead(0x1234, true));
+    } catch (const T::VerifAssertion&) {
+        bp.Put((u16)0xDEAD);
+    }
+    bp.Put(t.DataReadA32(0x1FFFE));
     o[O_API] = bp.Hash();
     u64 lh = 7;
     for (auto& s : m.log)
